@@ -89,7 +89,7 @@ type FnTx struct {
 	unsupported []string
 	deferred    []*ssa.Defer
 	smtMu       sync.Mutex
-	assertSites map[string]int // call-assert label -> number of call sites it was checked at
+	assertSites map[string]int             // call-assert label -> number of call sites it was checked at
 	fnValSorts  map[string][2][]types.Type // name -> (param types, result types)
 	retStates   []retPoint
 	instance    string                      // bounded instance name ("" = unbounded)
@@ -910,6 +910,7 @@ func (tx *FnTx) run() (err error) {
 	tx.d.declConst("alloc0", "Int")
 	tx.d.declConst("hv0", "Int")
 	tx.assume("(> alloc0 0)")
+	tx.h.noteEpochAlloc(0, "alloc0")
 	st := &State{epoch: 0, heaps: map[string]string{}, alloc: "alloc0", hv: "hv0", locals: map[ssa.Value]Term{}, ghost: map[string]Term{}}
 	tx.entry = st
 	for _, b := range fn.Blocks {
@@ -1235,6 +1236,9 @@ func (tx *FnTx) enterLoop(li *loopInfo, pre *State) *State {
 	na := tx.d.fresh("alloc_l", "Int")
 	tx.assume("(>= " + na + " " + pre.alloc + ")")
 	head.alloc = na
+	if head.epoch != pre.epoch {
+		tx.h.noteEpochAlloc(head.epoch, na)
+	}
 	// locals stored inside the loop
 	for bb := range li.body {
 		for _, in := range bb.Instrs {
